@@ -678,6 +678,11 @@ def main(tier: str) -> int:
         else:
             fault = {"region": [rc.choice(["ensure_abstract_eval_bound", "plugin_binding", "_resolve", "apply_patches", "_activate_plugin_worlds", "import_all_plugins", "_iter_patch_specs"]), rc.randrange(0, 600)], "exc": rc.choice(["SimFault", "SimInterrupt"])}
         cold_plans.append({"property": PROP, "hashseed": 0, "kind": "cold", "ops": [{"op": "convert", "pid": pid, "fault": fault, "n_hint": 10300}, {"op": "convert", "pid": pid}, {"op": "eager", "pid": pid}, {"op": "sweep"}]})
+    # a fixed probe for the listed known finding, so that it is observed (and printed) on every
+    # run while it exists, independent of what the seeded histories happen to contain
+    cold_plans.append({"property": PROP, "hashseed": 0, "kind": "known_finding_probe", "ops": [
+        {"op": "convert", "pid": FIX + "jit_cold"}, {"op": "eager", "pid": FIX + "jit_cold"},
+        {"op": "convert", "pid": FIX + "jit_cold2"}, {"op": "eager", "pid": FIX + "jit_cold2"}, {"op": "sweep"}]})
     # stage 1: control (expectations + namespace noise)
     ctl = co.run_plans([control_plan(hist_plans + cold_plans)], timeout=900)[0]
     if not ctl or ctl.get("status") != "ok":
